@@ -126,7 +126,7 @@ func (p *rp) sum() int64 {
 // position that admits an expression.
 func VC06() {
 	shape := vrt.ChooseStr("shape", c06Shapes)
-	where := vrt.ChooseStr("where", []string{"dd", "imm", "equ", "disp", "dw"})
+	where := vrt.ChooseStr("where", []string{"dd", "imm", "equ", "disp", "dw", "dispr"})
 	spacing := 0
 	if where == "dd" || vrt.Param("allconst") != 0 {
 		spacing = vrt.Choose("spacing", 3)
@@ -202,13 +202,26 @@ func VC06() {
 		src = "ORG 0x100\nXX EQU " + text + "\nDD XX\n"
 	case "disp":
 		src = "[BITS 32]\nORG 0x100\nMOV ECX,[EBX+" + text + "]\n"
+	case "dispr":
+		// the constant terms first, the register last
+		src = "[BITS 32]\nORG 0x100\nMOV ECX,[" + text + "+EBX]\n"
 	}
 	vrt.Note("src", src)
 	out, oc := AssembleT(src, sb.list, "s")
 	vrt.Note("outcome", oc)
 	vrt.NoteBytes("bytes", out)
+	if oc == "ok" && !diagnosed() && len(out) == 0 && (where == "disp" || where == "dispr" || where == "imm") {
+		// accepted without a word, nothing emitted: the expression made the
+		// instruction disappear
+		vrt.Assert(false, "c06.dropped")
+	}
 	if oc != "ok" || diagnosed() || len(out) == 0 {
+		// every shape here is a valid constant expression in a position that
+		// admits one: failing to assemble it (even with a diagnostic) means
+		// the expression was not evaluated
+		// (DW warns about values beyond 16 bits: a diagnosed run is fine there)
 		vrt.Reach("c06.rejected")
+		vrt.Assert(where == "dw", "c06.assembles")
 		return
 	}
 	vrt.Reach("c06.accepted")
@@ -229,7 +242,7 @@ func VC06() {
 		if len(out) == 5 {
 			acc.eqLE(out[1:], want)
 		}
-	case "disp":
+	case "disp", "dispr":
 		// 8B 0B | 8B 4B d8 | 8B 8B d32
 		acc.flag(len(out) < 2 || out[0] != 0x8b)
 		switch len(out) {
